@@ -88,3 +88,12 @@ Theorem c03_save_open_identity :
   N.of_nat (length file) < 2 ^ 32 ->
   open_model sha256 sha512 hmac256 kdf outer_dec decompress gunzip lex keystream other_formats file elements = Ok db.
 Proof. exact save_open_identity. Qed.
+
+From KP Require Import XmlText XmlTextProofs.
+(* ---- the XML TEXT layer (xml/XmlText.v): what the xml-rs writer prints for an event list and what the
+   xml-rs reader lexes back, as executable definitions tied to the library by the xml-text stream.  On
+   well-formed event lists (well nested, ASCII names, no empty or blank text, XML characters only, no
+   repeated attribute) reading back what was printed returns the events *)
+Theorem c03_xml_text_roundtrip : forall evs : list ev,
+  wf_events evs = true -> lex_xml (render_xml evs) = evs.
+Proof. exact lex_render. Qed.
